@@ -1123,8 +1123,8 @@ fn gen_c17(rng: &mut Rng, n: usize, out: &mut Vec<Case>) {
     while out.len() < n {
         let ty = rng.below(16) as usize;
         let (na, nb) = match ty {
-            9 => { let k = rng.below(6) as usize; (k, if rng.below(4) == 0 { rng.below(6) as usize } else { k }) }
-            14 | 15 => { let k = 3 * rng.below(5) as usize; (k, if rng.below(4) == 0 { 3 * rng.below(5) as usize } else { k }) }
+            9 => { let k = (if rng.below(2) == 0 { rng.below(6) } else { rng.below(41) }) as usize; (k, if rng.below(4) == 0 { rng.below(6) as usize } else { k }) }
+            14 | 15 => { let k = 3 * (if rng.below(2) == 0 { rng.below(5) } else { rng.below(41) }) as usize; (k, if rng.below(4) == 0 { 3 * rng.below(5) as usize } else { k }) }
             _ => (fixed[ty], fixed[ty]),
         };
         let eps = [0.0, f64::EPSILON, 0.25, 1.0, 16.0][rng.below(5) as usize];
